@@ -392,6 +392,32 @@ def large_cases(draw):
     return c
 
 
+def run_huge(ctx, n):
+    """Chunks of 128 / 256 voxels per axis: one new chunk is computed from a
+    region of more than 2**23 voxels of the previous scale, clipped at the
+    volume border with odd extents."""
+    sizes = [([600, 140, 127], 256), ([300, 270, 131], 128),
+             ([519, 263, 67], 256)]
+    for k in range(max(1, min(n, len(sizes)))):
+        size, target = sizes[k]
+        case = {"method": ["average", "stride", "average"][k],
+                "outside": None, "dtype": "uint8", "channels": 1,
+                "encoding": "raw", "block": [8, 8, 8], "type": "image",
+                "acc": {"type": "file", "flat": True, "gzip": False},
+                "seed": ctx.seed * 3 + 2 + 3 * k, "mode": "generated",
+                "size": size, "ratios": [1, 1, 1], "target": target,
+                "max_scales": 2}
+        try:
+            check_case(ctx, case)
+        except AssertionError as exc:
+            if type(exc).__name__ != "Violation":
+                raise
+            ctx.violations.append({"sub": "huge", "case": case,
+                                   "message": str(exc)})
+            break
+        ctx.record(case, True, ["target%d" % target])
+
+
 def replay(ctx, case):
     check_case(ctx, case)
 
@@ -403,4 +429,5 @@ SUBS = [
         thorough=8000, min_per_shard=10),
     Sub("large", run_mode(large_cases()), replay, quick=12, thorough=300,
         shards=4),
+    Sub("huge", run_huge, replay, quick=1, thorough=3, shards=1),
 ]
